@@ -60,7 +60,11 @@ def _ops():
         ("add_surrogate s", lambda m: m.add_surrogate("s", S())),
         ("update_surrogate s outputs", lambda m: m.update_surrogate("s", outputs=["so3", "so4"], stoichiometries={"so3": {"x": -1.0}})),
         ("update_surrogate s args", lambda m: m.update_surrogate("s", args=["x"])),
+        ("update_surrogate s outputs (name taken)", lambda m: m.update_surrogate("s", outputs=["so3", "k"])),
+        ("update_surrogate s replaced", lambda m: m.update_surrogate(
+            "s", surrogate=MockSurrogate(fn=sur, args=["x"], outputs=["so5", "so2"], stoichiometries={"so5": {"x": -1.0}}))),
         ("remove_surrogate s", lambda m: m.remove_surrogate("s")),
+        ("add_parameter so1 (surrogate output name)", lambda m: m.add_parameter("so1", 1.0)),
         ("add_data dat", lambda m: m.add_data("dat", pd.Series({"a": 1.0}))),
         ("update_data dat", lambda m: m.update_data("dat", pd.Series({"a": 2.0}))),
         ("update_data unknown", lambda m: m.update_data("nodat", pd.Series({"a": 2.0}))),
